@@ -20,6 +20,7 @@ struct KeySpec {
     bool ticket_keys = false;        // server: load a session-ticket key (RFC 5077 tickets and TLS 1.3 PSK tickets)
     int ticket_key_id = 1;           // which deterministic ticket key
     bool tls13_psk = false;          // load an external TLS 1.3 PSK
+    int tls13_psk_cipher = 0;        // cipher suite bound to that PSK (needed for early data under it); 0 = unbound
     bool forge_cert_sig = false;     // identity certificate with one bit of the issuer's signature flipped (key still matches): a forged certificate
 };
 sslKeys_t *load_keys(const KeySpec &ks, int *rc_out = nullptr);
